@@ -168,6 +168,7 @@ let run_artn steps =
       | ["m"; p; l] -> note "m"; NMode (nat_of_int (ios p), l <> "0")
       | ["s"; v] -> note "s"; NSubnet (nn v)
       | ["n"; v] -> note "n"; NNet (nn v)
+      | ["f"; v] -> note "f"; NSendFail (v <> "0")
       | _ -> failwith "bad artn step" in
     let before = !nd in
     let (nd', cbs) = node_op (n_of_int !now) before op in
@@ -201,12 +202,84 @@ let run_artn steps =
                            (if !wild then ":wild" else ""));
   Buffer.contents out
 
+(* sacnm <ignore_preview> <step>,...  one inflator, universes 1..3 observed
+   step: r:univ:fresh | x:univ | dt:vec:cid:prio:seq:univ:flags:dmph:pduhex *)
+let run_sacnm ip steps =
+  let ipb = (ip <> "0") in
+  let univs = [1; 2; 3] in
+  let st = ref [] in
+  let ks = ref [] in                       (* universe -> checker state (text level) *)
+  let caps = ref [] in
+  let now = ref t0 in
+  let out = Buffer.create 256 in
+  let verdicts = ref [] and kinds = ref [] in
+  let note l = if not (List.mem l !kinds) then kinds := l :: !kinds in
+  List.iteri (fun i s ->
+    if i > 0 then Buffer.add_char out ';';
+    let cbu = ref (-1) and cbv = ref false in
+    let op = match colon s with
+      | ["r"; u; fr] -> note (if fr <> "0" then "R" else "r"); IReg (nn u, fr <> "0")
+      | ["x"; u] -> note "x"; IUnreg (nn u)
+      | [dt; vec; cid; prio; seq; u; flags; dmph; pdu] ->
+        now := !now + ios dt;
+        let fl = ios flags in
+        IPkt { p_vec = nn vec; p_cid = nn cid; p_prio = nn prio; p_seq = nn seq; p_univ = nn u;
+               p_preview = (fl land 1 <> 0); p_term = (fl land 2 <> 0); p_rev2 = (fl land 4 <> 0);
+               p_dmph = nn dmph; p_pdu = bytes_of_hex pdu }
+      | _ -> failwith "bad sacnm step" in
+    let (st', oc) = inflator_op ipb (n_of_int !now) !st op in
+    (* text level, per universe *)
+    (match op with
+     | IReg (u, fresh) ->
+       let ui = int_of_n u in
+       (match List.assoc_opt ui !ks with
+        | None -> ks := (ui, init_cst) :: !ks
+        | Some k -> if fresh then
+            ks := (ui, { k with k_st = rebuffer k.k_st; k_frozen = [] }) :: List.remove_assoc ui !ks)
+     | IUnreg u -> ks := List.remove_assoc (int_of_n u) !ks
+     | IPkt p ->
+       let ui = int_of_n p.p_univ in
+       (match List.assoc_opt ui !ks with
+        | None -> ()
+        | Some k ->
+          let c = { c_ignore_preview = ipb; c_univ = p.p_univ } in
+          if not (gcap c (n_of_int !now) k.k_T k.k_D p) then caps := ui :: !caps;
+          let (((k', oc'), vN), d4) = cstep c (n_of_int !now) k true p in
+          if oc' <> oc || ilook st' p.p_univ <> Some k'.k_st then failwith "cstep/inflator_op";
+          ks := (ui, k') :: List.remove_assoc ui !ks;
+          cbu := ui; cbv := (match oc with OMerge (_, cb) -> cb | _ -> false);
+          note (match oc with OIgnore -> "I" | ODiscard -> "D" | OMerge (None, _) -> "T" | OMerge (Some _, _) -> "M");
+          if d4 && not (List.mem 4 !verdicts) then verdicts := 4 :: !verdicts;
+          let v = if List.mem ui !caps then 0 else int_of_n vN in
+          if not (List.mem v !verdicts) then verdicts := v :: !verdicts));
+    st := st';
+    Buffer.add_string out (Printf.sprintf "o%d=%s" i (String.concat "/" (List.map (fun u ->
+      match ilook st' (n_of_int u) with
+      | None -> "-"
+      | Some x -> Printf.sprintf "%s|%s|%s" (bool01 (u = !cbu && !cbv)) (ni x.u_pout) (hex_of_bytes x.u_buf)) univs)));
+    Buffer.add_string out (Printf.sprintf ";t%d=%s" i (String.concat "/" (List.map (fun u ->
+      match ilook st' (n_of_int u) with
+      | None -> "-"
+      | Some x -> ni x.u_active ^ "|" ^ String.concat "+" (List.map (fun s ->
+           Printf.sprintf "%s.%s.%s.%s" (ni s.s_cid) (ni s.s_seq) (ni s.s_last) (hex_of_bytes s.s_buf)) x.u_srcs)) univs)))) steps;
+  let vs = List.sort compare !verdicts in
+  Buffer.add_string out (Printf.sprintf ";txt=%s" (if List.mem 3 vs then "0" else "1"));
+  if not (List.mem 3 vs) then begin
+    if List.mem 1 vs then Buffer.add_string out ";known=C08-sacn-handdown-gap"
+    else if List.mem 2 vs then Buffer.add_string out ";known=C08-sacn-stale-after-discard"
+    else if List.mem 4 vs then Buffer.add_string out ";known=C08-sacn-seq-window-forgotten"
+  end;
+  Buffer.add_string out (Printf.sprintf ";class=sacnm:%s:txt%s" (String.concat "" (List.sort compare !kinds))
+                           (String.concat "" (List.map string_of_int vs)));
+  Buffer.contents out
+
 let handle_payload (p : string) : string =
   match split p with
   | ["sacn"; ip; univ; steps] -> run_sacn false ip univ (comma steps)
   | ["sacnw"; ip; univ; steps] -> run_sacn true ip univ (comma steps)
   | ["art"; ltp; steps] -> run_art ltp (comma steps)
   | ["artn"; steps] -> run_artn (comma steps)
+  | ["sacnm"; ip; steps] -> run_sacnm ip (comma steps)
   | ["consts"] -> Printf.sprintf "expiry_us=%s;class=consts" (ni eXPIRY_INTERVAL_US)
   | _ -> "bad-op"
 let () = vh_run handle_payload
